@@ -173,6 +173,8 @@ def register(reg):
 
     for cls, short in ((FWD, "FWD"), (TUN, "TUN")):
         for n in ("is_available", "has_expired", "is_idle", "is_closed"):
+            if (cls, n) == (TUN, "is_closed"):
+                continue  # the tunnel has its own failed flag (below)
             delegating_observer(cls, short, n, n)
 
         def mk_can_handle(cls=cls, short=short):
@@ -210,7 +212,8 @@ def register(reg):
     reg.fields(
         TUN, "TUN",
         const=["_proxy_origin", "_remote_origin", "_ssl_context", "_proxy_ssl_context", "_proxy_headers", "_keepalive_expiry", "_http1", "_http2", "_connect_lock"],
-        shared=["_connection", "_connected"],
+        shared=["_connection", "_connected", "_connect_failed"],
+        _connect_failed="bool",
         _connection="ref:" + CI, _proxy_origin="ref:" + ORIGIN, _remote_origin="ref:" + ORIGIN, _ssl_context="val", _proxy_ssl_context="val",
         _proxy_headers="seq:hdr", _keepalive_expiry="opt:real", _http1="bool", _http2="bool", _connect_lock="ref:" + LOCK, _connected="bool",
     )
@@ -232,6 +235,24 @@ def register(reg):
             eng.assume(st, z3.Implies(z3.Select(o, s.t), z3.And(z3.Select(eng.heap_arr(st, "TUN._connected", BoolS), s.t), z3.Select(eng.heap_arr(st, "TUN._connection", IntS), s.t) == z3.Select(oc, s.t))))
 
     reg.rely_hooks.append(rely)
+
+    @reg.contract
+    class TunIsClosed(Contract):
+        key = TUN + ".is_closed"
+        props = ("C05", "C09", "C01", "C06", "C04", "C07")
+        result_kind = "bool"
+        suspends = False
+
+        def checks(self, c):
+            s = c.self
+            conn = c.new(s, "TUN._connection")
+            evs = c.events("ci.is_closed")
+            r = c.eng.z_bool(c.eng.truthy(c.st, c.result))
+            inner = z3.And(evs[0].data["result"].t, evs[0].data["conn"].t == conn.t) if len(evs) == 1 else z3.BoolVal(False)
+            asked = z3.BoolVal(len(evs) == 1)
+            # closed iff establishment was given up or the wrapped connection is closed
+            return [("closed_iff_given_up_or_wrapped_connection_closed", ("C05", "C07", "C06", "C01"),
+                     z3.If(F(c, s, "TUN._connect_failed"), r, z3.And(asked, r == inner)))]
 
     def val_as_stream(it, st, v):
         return VRef(ref_of_val(v.t), NS)
@@ -269,7 +290,7 @@ def register(reg):
                 ("inner_connection_gets_keepalive_expiry_and_backend", ("C09", "C10"), z3.And(
                     e.z_bool(e.eq(st, e.coerce(st, d.get("keepalive_expiry", NONE), "opt:real"), c.args["keepalive_expiry"])),
                     d["network_backend"].t == c.args["network_backend"].t) if ok and "network_backend" in d else False),
-                ("starts_unconnected", ("C11",), z3.Not(F(c, s, "TUN._connected"))),
+                ("starts_unconnected", ("C11", "C05"), z3.And(z3.Not(F(c, s, "TUN._connected")), z3.Not(F(c, s, "TUN._connect_failed")))),
                 ("stores_config", ("C10", "C11"), z3.And(
                     F(c, s, "TUN._proxy_origin") == c.args["proxy_origin"].t, F(c, s, "TUN._remote_origin") == c.args["remote_origin"].t,
                     F(c, s, "TUN._proxy_headers") == c.args["proxy_headers"].t, F(c, s, "TUN._ssl_context") == c.args["ssl_context"].t,
@@ -292,6 +313,9 @@ def register(reg):
 
         def on_field_write(self, c, obj, key, v, node):
             lid = lock_id(c.new(c.self, "TUN._connect_lock"))
+            if key == "TUN._connect_failed":
+                return [("tunnel_failed_flag_is_only_ever_set_and_only_while_unestablished", ("C05", "C06"),
+                         z3.And(c.eng.z_bool(c.eng.truthy(c.st, v)), z3.Not(F(c, c.self, "TUN._connected"))))]
             if key in ("TUN._connection", "TUN._connected"):
                 return [("tunnel_state_written_under_connect_lock", ("C05", "C08", "C11"), lid in c.st.held)]
             return []
@@ -397,6 +421,10 @@ def register(reg):
             done = [x for x in hs if "result" in x.data]
             lid = lock_id(c.new(s, "TUN._connect_lock"))
             inside = lid in exc.tag.get("held", [])
+            # from the property (C05), as for HTTPConnection / Socks5Connection: no request leaves the tunnel
+            # unestablished without the connection reporting itself closed (it is neither available nor idle then)
+            out.append(("unestablished_tunnel_is_given_up_when_its_request_fails", ("C05", "C07"),
+                        z3.Implies(z3.Not(F(c, s, "TUN._connected")), F(c, s, "TUN._connect_failed"))))
             if exc.cls == PE and exc.tag.get("from") != "ci.handle_request":
                 resp = done[-1].data["result"] if done else None
                 status = F(c, resp, "Response.status") if resp is not None else z3.IntVal(200)
